@@ -78,6 +78,26 @@ type fn struct {
 
 	breakK []kont
 	contK  []kont
+
+	// lambda-lifted loops
+	localTypes map[string]string // Coq local name -> Coq type (variables, views, continuations)
+	localOrder []string
+	nameObj    map[string]types.Object
+	lifted     []string
+	nloops     int
+	loopDepth  int
+}
+
+// regLocal records the Coq type of a local name (needed when a loop that
+// mentions it is lifted to a top-level Fixpoint).
+func (c *fn) regLocal(name, typ string) {
+	if c.localTypes == nil {
+		c.localTypes = map[string]string{}
+	}
+	if _, ok := c.localTypes[name]; !ok {
+		c.localOrder = append(c.localOrder, name)
+	}
+	c.localTypes[name] = typ
 }
 
 func (c *fn) fail(n ast.Node, format string, a ...any) {
@@ -279,6 +299,22 @@ func (c *fn) nameOf(o types.Object) string {
 	}
 	c.used[n] = true
 	c.names[o] = n
+	if c.nameObj == nil {
+		c.nameObj = map[string]types.Object{}
+	}
+	c.nameObj[n] = o
+	func() {
+		defer func() {
+			if r := recover(); r != nil {
+				if _, ok := r.(unsup); !ok {
+					panic(r)
+				}
+			}
+		}()
+		if v, ok := o.(*types.Var); ok && c.sig != nil {
+			c.regLocal(n, c.varType(v))
+		}
+	}()
 	return n
 }
 
@@ -717,6 +753,8 @@ func (c *fn) translate(it *item) {
 		c.namedRes = nil
 		c.fi.params = nil
 		c.breakK, c.contK = nil, nil
+		c.localTypes, c.localOrder, c.nameObj = map[string]string{}, nil, map[string]types.Object{}
+		c.lifted, c.nloops, c.loopDepth = nil, 0, 0
 		c.analyse()
 		c.retType = c.fi.resType
 		if partial {
@@ -744,7 +782,11 @@ func (c *fn) translate(it *item) {
 			}
 		}
 		hdr := fmt.Sprintf("(* %s  [%s] *)\nDefinition %s %s: %s :=\n", cmt(c.fi.label), c.g.L.pos(c.decl.Pos(), c.pkg), c.fi.name, strings.Join(append(ps, ""), " "), c.retType)
-		return hdr + "  " + indentTerm(term) + ".", false
+		pre2 := ""
+		for _, l := range c.lifted {
+			pre2 += l + "\n"
+		}
+		return pre2 + hdr + "  " + indentTerm(term) + ".", false
 	}
 	text, again := run(false)
 	if again {
